@@ -1007,6 +1007,15 @@ where
             strings.insert(key, allocated);
         }
 
+        // Every string must have its own key and the keys must be exactly `0..len`, otherwise
+        // lookups disagree with each other and `into_reader()`/`into_resolver()` (which index a
+        // dense vector by key) would touch memory out of bounds
+        if strings.len() != map.len() || next_key != strings.len() {
+            return Err(serde::de::Error::custom(
+                "the keys of a serialized ThreadedRodeo must be unique and contiguous",
+            ));
+        }
+
         Ok(Self {
             map,
             strings,
